@@ -18,8 +18,10 @@ def genesisModel (line : String) : String :=
 def knownClasses : List (String × String × String × String) := [
   ("htlc", "validate", "timestamp", "F-gen-1"),
   ("htlc", "import", "timestamp", "F-gen-1"),
-  ("oracle", "queries_same", "values", "F-gen-2"),
-  ("record", "queries_same", "", "F-gen-3")]
+  ("oracle", "fixpoint", "vals=", "F-gen-2"),
+  ("oracle", "queries_same", "vals=", "F-gen-2"),
+  ("record", "fixpoint", "recs=", "F-gen-3"),
+  ("record", "queries_same", "recs=", "F-gen-3")]
 
 def classify (module clause obs : String) : String :=
   match knownClasses.find? (fun (m, c, sub, _) => m = module && c = clause && (sub = "" || (obs.splitOn sub).length > 1)) with
